@@ -462,6 +462,10 @@ func TestInstanceRangesRapid(t *testing.T) {
 	now := time.Now()
 	rapid.Check(t, func(rt *rapid.T) {
 		nz := rapid.IntRange(1, 3).Draw(rt, "zones")
+		if rapid.IntRange(0, 5).Draw(rt, "manyZones") == 0 {
+			nz = rapid.IntRange(6, 8).Draw(rt, "zonesMany")
+			vx.Class("layouts_with_six_or_more_zones", 1)
+		}
 		nInst := rapid.IntRange(nz, vx.Pick(12, 30)).Draw(rt, "instances")
 		maxTok := rapid.SampledFrom([]int{1, 2, 3, 8, 64}).Draw(rt, "maxTokens")
 		l := layout{Zones: nz, Owners: map[string][]uint32{}, ZoneOf: map[string]string{}, ReadOnly: map[string]bool{}, Unsorted: map[string]bool{}}
